@@ -122,7 +122,7 @@ static std::string diffdesc(const std::vector<uint8_t> &got, const std::vector<u
 #include <unistd.h>
 #include <sys/wait.h>
 #include <sys/time.h>
-static bool g_child = false, g_expired = false;
+static bool g_child = false, g_expired = false, g_suspect = false;   // g_suspect: the heap of this process may be corrupted
 static std::string g_child_out;
 static std::set<std::string> g_clean;
 static void report(Run &r, const std::string &sig, const std::string &detail)
@@ -150,22 +150,30 @@ static void zygote_start()
 		g_installed = false;
 		struct itimerval it; memset(&it, 0, sizeof it); setitimer(ITIMER_REAL, &it, 0);
 		for (;;) {
-			uint32_t hd[2];
-			if (!rd_all(a[0], hd, sizeof hd)) _exit(0);
-			Vec v(hd[1]);
-			if (hd[1] && !rd_all(a[0], v.data(), hd[1] * sizeof(uint64_t))) _exit(0);
+			// the screener serves requests until a step corrupts or kills it; then a fresh one is forked from this small process
 			pid_t c = fork();
 			if (c == 0) {
-				alarm(20);
-				std::string res = run_case((char) hd[0], v);
-				wr_msg(b[1], res);
-				_exit(0);
+				g_installed = false; guard_install();
+				g_child = true;
+				for (;;) {
+					uint32_t hd[2];
+					if (!rd_all(a[0], hd, sizeof hd)) _exit(0);
+					Vec v(hd[1]);
+					if (hd[1] && !rd_all(a[0], v.data(), hd[1] * sizeof(uint64_t))) _exit(0);
+					alarm(20);
+					g_suspect = false;
+					std::string res = run_case((char) hd[0], v);
+					alarm(0);
+					wr_msg(b[1], res);
+					if (g_suspect) _exit(7);
+				}
 			}
 			int st = 0;
 			while (waitpid(c, &st, 0) < 0 && errno == EINTR) {}
-			if (c < 0) wr_msg(b[1], "\x01" "FORK");
-			else if (WIFSIGNALED(st)) wr_msg(b[1], WTERMSIG(st) == SIGALRM ? std::string("\x01HANG") : "\x01SIG" + std::to_string(WTERMSIG(st)));
-			else if (WEXITSTATUS(st) != 0) wr_msg(b[1], "\x01" "EXIT" + std::to_string(WEXITSTATUS(st)));
+			if (c < 0) _exit(1);
+			if (WIFSIGNALED(st)) wr_msg(b[1], WTERMSIG(st) == SIGALRM ? std::string("\x01HANG") : "\x01SIG" + std::to_string(WTERMSIG(st)));
+			else if (WEXITSTATUS(st) == 0) _exit(0);
+			else if (WEXITSTATUS(st) != 7) wr_msg(b[1], "\x01" "EXIT" + std::to_string(WEXITSTATUS(st)));
 		}
 	}
 	close(a[0]); close(b[1]);
@@ -180,9 +188,11 @@ static bool screened(Run &r, char fam, const std::string &key, const std::string
 	uint32_t hd[2] = { (uint32_t) fam, (uint32_t) r.cur.size() };
 	std::string m((char *) hd, sizeof hd); m.append((const char *) r.cur.data(), r.cur.size() * sizeof(uint64_t));
 	uint32_t n = 0; std::string res;
+	struct timespec t0, t1; clock_gettime(CLOCK_MONOTONIC, &t0);
 	if (!wr_all(z_req, m.data(), m.size()) || !rd_all(z_resp, &n, 4)) { z_owner = 0; return true; }
 	res.resize(n);
 	if (n && !rd_all(z_resp, &res[0], n)) { z_owner = 0; return true; }
+	clock_gettime(CLOCK_MONOTONIC, &t1); r.count("screen-us", (t1.tv_sec - t0.tv_sec) * 1000000 + (t1.tv_nsec - t0.tv_nsec) / 1000);
 	r.beat(); r.count("screened-in-child");
 	if (r.expired()) g_expired = true;
 	if (res == "OK") { g_clean.insert(key); return true; }
@@ -280,7 +290,7 @@ struct RawSys {
 	}
 	~RawSys()
 	{
-		if (dead) return;
+		if (dead) { g_suspect = true; return; }
 		for (int i = 0; i < 3; ++i) if (h[i].b) { mpt::buffer *b = h[i].b; h[i].b = 0; guarded([&] { b->unref(); }); }
 	}
 	int nops() { return (int) g_tab[API].size(); }
@@ -842,7 +852,560 @@ template <int API> bool RawSys<API>::apply_x(const Inst &in, std::string &name)
 	return false;
 }
 
-//@@FAMILIES@@
+// ================================================================== families t / p / m : typed C++ templates
+// handles are single pointers (reference<content<T> >) kept in raw slots, so that a system that has seen a
+// violation can be abandoned without running destructors on damaged state
+static bool heap_buf(mpt::buffer *b) { return b && ledger_is_live((const char *) b - (64 - sizeof(mpt::buffer))); }
+struct Slots {
+	void *p[3];
+	mpt::buffer *buf(int i) const { return (mpt::buffer *) p[i]; }
+	int groups(int g[3], mpt::buffer *bs[3]) const
+	{
+		int n = 0;
+		for (int i = 0; i < 3; ++i) {
+			g[i] = -1;
+			if (!buf(i)) continue;
+			for (int j = 0; j < n; ++j) if (bs[j] == buf(i)) g[i] = j;
+			if (g[i] < 0) { bs[n] = buf(i); g[i] = n++; }
+		}
+		return n;
+	}
+	size_t heap_groups() const { int g[3]; mpt::buffer *bs[3]; int n = groups(g, bs); size_t k = 0; for (int j = 0; j < n; ++j) if (heap_buf(bs[j])) ++k; return k; }
+};
+static std::string tstate(mpt::buffer *b)
+{
+	if (!b) return "null";
+	uint32_t f = b->get_flags();
+	if (!heap_buf(b)) return "default";
+	return (f & mpt::BufferShared) ? "shared" : "sole";
+}
+static std::string tcanon(mpt::buffer *b, size_t esz)
+{
+	if (!b) return "-";
+	if (!heap_buf(b)) return "D";
+	size_t used = b->_used, size = b->_size; uint32_t fl = b->get_flags();
+	return fmt("{f%x%s u%s%s l%s c%zu}", fl & 0xff, (fl & mpt::BufferShared) ? "S" : "", cls5(used / esz, 4), used % esz ? "!" : "", cls5(size >= used ? (size - used) / esz : 0, 3), std::min((size + 64) / 128, (size_t) 3));
+}
+template <class T> static std::string vecs(const std::vector<T> &v) { std::string s = "["; for (size_t i = 0; i < v.size() && i < 24; ++i) s += (i ? "," : "") + std::to_string((long) v[i]); if (v.size() > 24) s += fmt(",..(%zu)", v.size()); return s + "]"; }
+
+// ---- typed_array<int> x2 + unique_array<int>
+enum TK { TK_INSERT, TK_SET, TK_GET, TK_RESIZE, TK_RESERVE, TK_DETACH, TK_OFFSET, TK_ASSIGN, TK_SWAP };
+static std::vector<Inst> g_ttab;
+static void build_ttab()
+{
+	if (!g_ttab.empty()) return;
+	for (int w = 0; w < 3; w += 2) {
+		for (int i = 0; i < 8; ++i) g_ttab.push_back(Inst{TK_INSERT, w, i, 0});
+		for (int i = 0; i < 5; ++i) { g_ttab.push_back(Inst{TK_SET, w, i, 0}); g_ttab.push_back(Inst{TK_GET, w, i, 0}); }
+		for (int i = 0; i < 7; ++i) g_ttab.push_back(Inst{TK_RESIZE, w, i, 0});
+		for (int i = 0; i < 5; ++i) g_ttab.push_back(Inst{TK_RESERVE, w, i, 0});
+		g_ttab.push_back(Inst{TK_DETACH, w, 0, 0});
+		for (int i = 0; i < 3; ++i) g_ttab.push_back(Inst{TK_OFFSET, w, i, 0});
+	}
+	for (int i = 0; i < 6; ++i) g_ttab.push_back(Inst{TK_ASSIGN, i, 0, 0});
+	g_ttab.push_back(Inst{TK_SWAP, 0, 0, 0});
+}
+struct TSys {
+	typedef mpt::typed_array<int> TA; typedef mpt::unique_array<int> UA;
+	Run &r; Slots h; std::vector<int> m[3]; bool dead; int fault; size_t nap;
+	TA *t(int i) { return reinterpret_cast<TA *>(&h.p[i]); }
+	UA *u(int i) { return reinterpret_cast<UA *>(&h.p[i]); }
+	void V(const std::string &sig, const std::string &detail) { report(r, sig, detail); }
+	TSys(Run &run, uint64_t) : r(run), dead(false), fault(0), nap(0)
+	{
+		warm(); build_ttab(); if (!g_child && !r.replaying) zygote_start();
+		ledger_base(); asan_error();
+		{ mc::Lib l; new (&h.p[0]) TA(); new (&h.p[1]) TA(); new (&h.p[2]) UA(); }
+	}
+	~TSys()
+	{
+		if (dead) { g_suspect = true; return; }
+		guarded([&] { t(0)->~TA(); t(1)->~TA(); u(2)->~UA(); });
+	}
+	int nops() { return (int) g_ttab.size(); }
+	static const char *hname(int i) { return i == 2 ? "unique_array" : (i ? "typed_array1" : "typed_array0"); }
+	void relabel()
+	{
+		int g[3]; mpt::buffer *bs[3]; int n = h.groups(g, bs);
+		for (int j = 0; j < n; ++j) {
+			mpt::buffer *b = bs[j];
+			if (!heap_buf(b) || b->_used > b->_size) continue;
+			int *d = (int *) (b + 1);
+			for (size_t i = 0; i < b->_used / 4; ++i) d[i] = (j + 1) * 1000 + (int) i + 1;
+			memset((uint8_t *) d + b->_used, JUNK, b->_size - b->_used);
+		}
+		for (int i = 0; i < 3; ++i) { m[i].clear(); mpt::buffer *b = h.buf(i); if (b && heap_buf(b)) for (size_t k = 0; k < b->_used / 4; ++k) m[i].push_back((g[i] + 1) * 1000 + (int) k + 1); }
+	}
+	std::string canon()
+	{
+		int g[3]; mpt::buffer *bs[3]; int n = h.groups(g, bs);
+		std::string s;
+		for (int j = 0; j < n; ++j) s += fmt("g%d", j) + tcanon(bs[j], 4) + " ";
+		for (int i = 0; i < 3; ++i) s += fmt("%s=g%d ", i == 2 ? "u" : (i ? "t1" : "t0"), g[i]);
+		return s;
+	}
+	bool check(const std::string &base, const std::string &desc, int w, bool refused, bool must_refuse = false)
+	{
+		if (fault) { V(base + signame(fault), desc + ": the call faulted"); dead = true; return false; }
+		if (asan_error()) { V(base + "memory-error", desc + ": access outside the buffer / freed memory (AddressSanitizer)"); dead = true; return false; }
+		if (must_refuse && !refused) { V(base + "accepted-out-of-range", desc + ": arguments outside the data were not refused"); return false; }
+		stat(base.substr(0, base.find('|')) + (refused ? ":refused" : ":ok"));
+		for (int pass = 0; pass < 2; ++pass) for (int i = 0; i < 3; ++i) {
+			if ((pass == 0) != (i != w)) continue;
+			const char *grp = i != w ? "other-handle-changed" : (refused ? "refused-but-changed" : "wrong-content");
+			mpt::buffer *b = h.buf(i);
+			if (!b) { V(base + grp, desc + fmt(": %s lost its buffer", hname(i))); dead = true; return false; }
+			if (b->_used > b->_size || b->_used % 4) { V(base + grp, desc + fmt(": %s used size %zu / capacity %zu", hname(i), (size_t) b->_used, (size_t) b->_size)); dead = true; return false; }
+			std::vector<int> got((int *) (b + 1), (int *) (b + 1) + b->_used / 4);
+			if (got != m[i]) { V(base + grp, desc + fmt(": %s reads %s, model %s", hname(i), vecs(got).c_str(), vecs(m[i]).c_str())); return false; }
+		}
+		if (asan_error()) { V(base + "memory-error", desc + ": reading a handle back touches freed memory"); dead = true; return false; }
+		size_t n = h.heap_groups(), live = ledger_live() - g_lbase;
+		if (live != n) { V(base + (live > n ? "leak" : "released-while-referenced"), desc + fmt(": %zu buffers allocated, %zu reachable from the handles", live, n)); if (live < n) dead = true; return false; }
+		return true;
+	}
+	std::string opname(int op)
+	{
+		const Inst &in = g_ttab[op];
+		const char *w = in.a == 2 ? "u" : "t0";
+		static const char *ipos[] = { "0", "1", "n-1", "n", "n+2", "cap", "-1", "-(n+1)" }, *spos[] = { "0", "n-1", "n", "-1", "-(n+1)" };
+		static const char *rs[] = { "0", "n-1", "n", "n+1", "cap", "cap+1", "-1" }, *rv[] = { "0", "n", "cap+1", "-1", "-(n+1)" }, *of[] = { "first", "last", "absent" };
+		static const char *as[] = { "t0=t1", "t1=t0", "t0=typed_array()", "(unique_array&)t0=u", "u=t0", "u=unique_array()" };
+		switch (in.k) {
+		case TK_INSERT: return fmt("%s.insert(%s)", w, ipos[in.b]);
+		case TK_SET: return fmt("%s.set(%s)", w, spos[in.b]);
+		case TK_GET: return fmt("%s.get(%s)", w, spos[in.b]);
+		case TK_RESIZE: return fmt("%s.resize(%s)", w, rs[in.b]);
+		case TK_RESERVE: return fmt("%s.reserve(%s)", w, rv[in.b]);
+		case TK_DETACH: return fmt("%s.detach()", w);
+		case TK_OFFSET: return fmt("%s.offset(%s)", w, of[in.b]);
+		case TK_ASSIGN: return as[in.a];
+		case TK_SWAP: return "swap(t0,t1)";
+		}
+		return "?";
+	}
+	bool apply(int op)
+	{
+		const Inst &in = g_ttab[op];
+		relabel(); fault = 0; asan_error();
+		if (in.k == TK_SWAP) { if (h.p[0] == h.p[1]) return false; std::swap(h.p[0], h.p[1]); std::swap(m[0], m[1]); return true; }
+		std::string name = opname(op), hint = name.substr(0, name.find('('));
+		r.hint(hint.c_str());
+		bool frontier = r.cur.size() == nap + 2; ++nap;
+		if (frontier && g_expired) return false;
+		std::string key = fmt("t/%d/", op) + tcanon(h.buf(0), 4) + tcanon(h.buf(1), 4) + tcanon(h.buf(2), 4) + (h.p[0] == h.p[1] ? "=" : "") + (h.p[0] == h.p[2] ? "~" : "") + (h.p[1] == h.p[2] ? "^" : "");
+		if (frontier && !screened(r, 't', key, hint, name + " in state " + canon())) return false;
+		++r.executions;
+		int w = in.k == TK_ASSIGN ? 0 : in.a;
+		mpt::buffer *b = h.buf(w);
+		long n = b ? (long) (b->_used / 4) : 0, cap = b && heap_buf(b) ? (long) (b->_size / 4) : 16;
+		std::string st = tstate(b), pre = canon(), base, desc;
+		long pos = 0;
+		auto mk = [&](const char *opn, const std::string &arg) { base = std::string(opn) + "|" + st + "|" + arg + "|"; desc = fmt("%s [n=%ld capacity=%ld arg=%ld] in state %s", name.c_str(), n, cap, pos, pre.c_str()); r.note("%s", desc.c_str()); };
+		auto touched = [&]() { if (b && heap_buf(b) && (b->get_flags() & mpt::BufferShared)) { r.count("nontrivial"); stat("target-shared-or-immutable"); } };
+		auto moved = [&]() { if (h.buf(w) != b && heap_buf(b)) { r.count("nontrivial"); stat("reallocated"); } };
+		auto dedupe = [&](const long *vals, int idx) { for (int j = 0; j < idx; ++j) if (vals[j] == vals[idx]) return false; return true; };
+		std::vector<int> &mv = m[w];
+		switch (in.k) {
+		case TK_INSERT: {
+			long I[8] = { 0, 1, n - 1, n, n + 2, cap, -1, -(n + 1) };
+			if (!dedupe(I, in.b) || (I[in.b] == n - 1 && n < 1) || I[in.b] > 400) return false;
+			pos = I[in.b]; long p = pos < 0 ? pos + n : pos;
+			mk("insert", p < 0 ? "before-start" : (p < n ? "inside" : (p == n ? "at-end" : "behind-gap")) + std::string(std::max(p, n) + 1 > cap ? ",exceeds-capacity" : "")); touched();
+			bool ok = false;
+			if (w == 0) fault = guarded([&] { mc::Lib l; ok = t(0)->insert(pos, 777); });
+			else fault = guarded([&] { mc::Lib l; int *e = u(2)->insert(pos); if (e) { *e = 777; ok = true; } });
+			if (!fault && ok && p >= 0) { moved(); if ((size_t) p > mv.size()) mv.resize(p, 0); mv.insert(mv.begin() + p, 777); }
+			return check(base, desc, w, !ok, p < 0); }
+		case TK_SET: case TK_GET: {
+			long S[5] = { 0, n - 1, n, -1, -(n + 1) };
+			if (!dedupe(S, in.b)) return false;
+			pos = S[in.b]; long p = pos < 0 ? pos + n : pos;
+			bool must = p < 0 || p >= n;
+			mk(in.k == TK_SET ? "set" : "get", must ? "outside" : "inside");
+			if (in.k == TK_SET) {
+				touched();
+				bool ok = false;
+				fault = guarded([&] { mc::Lib l; ok = u(w)->set(pos, 555); });
+				if (!fault && ok && !must) { moved(); mv[p] = 555; }
+				return check(base, desc, w, !ok, must);
+			}
+			int *e = 0;
+			fault = guarded([&] { mc::Lib l; e = u(w)->get(pos); });
+			if (!fault && e && !must && (e != (int *) (h.buf(w) + 1) + p)) { V(base + "wrong-result", desc + ": returned address is not the element"); return false; }
+			return check(base, desc, w, !e, must); }
+		case TK_RESIZE: {
+			long R[7] = { 0, n - 1, n, n + 1, cap, cap + 1, -1 };
+			if (!dedupe(R, in.b) || (in.b == 1 && n < 1) || R[in.b] > 400) return false;
+			pos = R[in.b];
+			mk("resize", pos < 0 ? "negative" : (pos < n ? "shrink" : (pos == n ? "same" : (pos <= cap ? "grow" : "grow,exceeds-capacity")))); touched();
+			bool ok = false;
+			fault = guarded([&] { mc::Lib l; ok = u(w)->resize(pos); });
+			if (!fault && ok && pos >= 0) { moved(); mv.resize(pos, 0); }
+			return check(base, desc, w, !ok); }
+		case TK_RESERVE: {
+			long R[5] = { 0, n, cap + 1, -1, -(n + 1) };
+			if (!dedupe(R, in.b) || R[in.b] > 400) return false;
+			pos = R[in.b];
+			mk("reserve", pos < 0 ? "negative" : (pos < n ? "below-length" : (pos <= cap ? "fits" : "exceeds-capacity"))); touched();
+			bool ok = false;
+			fault = guarded([&] { mc::Lib l; ok = u(w)->reserve(pos); });
+			if (!fault) moved();
+			return check(base, desc, w, !ok); }
+		case TK_DETACH: {
+			mk("detach", "-"); touched();
+			bool ok = false;
+			fault = guarded([&] { mc::Lib l; ok = u(w)->detach(); });
+			if (!fault) moved();
+			return check(base, desc, w, !ok); }
+		case TK_OFFSET: {
+			if (in.b < 2 && !n) return false;
+			if (in.b == 1 && n < 2) return false;
+			int ref = in.b == 0 ? mv[0] : (in.b == 1 ? mv[n - 1] : -5);
+			long want = in.b == 0 ? 0 : (in.b == 1 ? n - 1 : -1), got = -2;
+			mk("offset", "-");
+			fault = guarded([&] { mc::Lib l; got = u(w)->offset(ref); });
+			if (!fault && got != want) { V(base + "wrong-result", desc + fmt(": returned %ld, expected %ld", got, want)); return false; }
+			return check(base, desc, -1, false); }
+		case TK_ASSIGN: {
+			int d, s;
+			switch (in.a) { case 0: d = 0; s = 1; break; case 1: d = 1; s = 0; break; case 2: d = 0; s = -1; break; case 3: d = 0; s = 2; break; case 4: d = 2; s = 0; break; default: d = 2; s = -1; }
+			if (s >= 0 && h.p[d] == h.p[s]) return false;
+			if (s < 0 && !heap_buf(h.buf(d))) return false;
+			st = tstate(h.buf(d));
+			mk("assign", s < 0 ? "fresh" : "copy");
+			fault = guarded([&] { mc::Lib l;
+				switch (in.a) {
+				case 0: *t(0) = *t(1); break; case 1: *t(1) = *t(0); break; case 2: *t(0) = TA(); break;
+				case 3: *u(0) = *u(2); break; case 4: *u(2) = *u(0); break; default: *u(2) = UA(); } });
+			if (!fault) { if (s >= 0) m[d] = m[s]; else m[d].clear(); }
+			return check(base, desc, d, false); }
+		}
+		return false;
+	}
+};
+
+// ---- pointer_array<int> x2 + typed_array<int*>
+enum PK { PK_INSERT, PK_SET, PK_COMPACT, PK_SWAPEL, PK_UNUSED, PK_OFFSET, PK_ASSIGN, PK_SWAP };
+static std::vector<Inst> g_ptab;
+static int g_cell[4];
+static void build_ptab()
+{
+	if (!g_ptab.empty()) return;
+	for (int i = 0; i < 4; ++i) for (int k = 0; k < 3; ++k) g_ptab.push_back(Inst{PK_INSERT, i, k, 0});
+	for (int i = 0; i < 2; ++i) for (int k = 0; k < 2; ++k) g_ptab.push_back(Inst{PK_SET, i, k, 0});
+	g_ptab.push_back(Inst{PK_COMPACT, 0, 0, 0});
+	for (int i = 0; i < 4; ++i) for (int j = 0; j < 2; ++j) g_ptab.push_back(Inst{PK_SWAPEL, i, j, 0});
+	g_ptab.push_back(Inst{PK_UNUSED, 0, 0, 0});
+	g_ptab.push_back(Inst{PK_OFFSET, 1, 0, 0}); g_ptab.push_back(Inst{PK_OFFSET, 2, 0, 0});
+	for (int i = 0; i < 5; ++i) g_ptab.push_back(Inst{PK_ASSIGN, i, 0, 0});
+	g_ptab.push_back(Inst{PK_SWAP, 0, 0, 0});
+}
+struct PSys {
+	typedef mpt::pointer_array<int> PA; typedef mpt::typed_array<int *> DA;
+	Run &r; Slots h; std::vector<int> m[3]; bool dead; int fault; size_t nap;
+	PA *p(int i) { return reinterpret_cast<PA *>(&h.p[i]); }
+	DA *d(int i) { return reinterpret_cast<DA *>(&h.p[i]); }
+	void V(const std::string &sig, const std::string &detail) { report(r, sig, detail); }
+	PSys(Run &run, uint64_t) : r(run), dead(false), fault(0), nap(0)
+	{
+		warm(); build_ptab(); if (!g_child && !r.replaying) zygote_start();
+		ledger_base(); asan_error();
+		{ mc::Lib l; new (&h.p[0]) PA(); new (&h.p[1]) PA(); new (&h.p[2]) DA(); }
+	}
+	~PSys()
+	{
+		if (dead) { g_suspect = true; return; }
+		guarded([&] { p(0)->~PA(); p(1)->~PA(); d(2)->~DA(); });
+	}
+	int nops() { return (int) g_ptab.size(); }
+	static const char *hname(int i) { return i == 2 ? "typed_array<int*>" : (i ? "pointer_array1" : "pointer_array0"); }
+	static int cellidx(int *q) { if (!q) return 0; for (int k = 1; k < 4; ++k) if (q == &g_cell[k]) return k; return 9; }
+	bool read(int i, std::vector<int> &out)
+	{
+		mpt::buffer *b = h.buf(i); out.clear();
+		if (!b || b->_used > b->_size || b->_used % sizeof(int *)) return false;
+		int **e = (int **) (b + 1);
+		for (size_t k = 0; k < b->_used / sizeof(int *); ++k) out.push_back(cellidx(e[k]));
+		return true;
+	}
+	std::string canon()
+	{
+		int g[3]; mpt::buffer *bs[3]; int n = h.groups(g, bs);
+		std::string s;
+		for (int j = 0; j < n; ++j) {
+			s += fmt("g%d", j) + tcanon(bs[j], sizeof(int *));
+			for (int i = 0; i < 3; ++i) if (g[i] == j) { std::vector<int> v; if (read(i, v)) s += vecs(v); break; }
+			s += " ";
+		}
+		for (int i = 0; i < 3; ++i) s += fmt("%s=g%d ", i == 2 ? "d" : (i ? "p1" : "p0"), g[i]);
+		return s;
+	}
+	bool check(const std::string &base, const std::string &desc, int w, bool refused, bool must_refuse = false)
+	{
+		if (fault) { V(base + signame(fault), desc + ": the call faulted"); dead = true; return false; }
+		if (asan_error()) { V(base + "memory-error", desc + ": access outside the buffer / freed memory (AddressSanitizer)"); dead = true; return false; }
+		if (must_refuse && !refused) { V(base + "accepted-out-of-range", desc + ": arguments outside the data were not refused"); dead = true; return false; }
+		stat(base.substr(0, base.find('|')) + (refused ? ":refused" : ":ok"));
+		for (int pass = 0; pass < 2; ++pass) for (int i = 0; i < 3; ++i) {
+			if ((pass == 0) != (i != w)) continue;
+			const char *grp = i != w ? "other-handle-changed" : (refused ? "refused-but-changed" : "wrong-content");
+			std::vector<int> got;
+			if (!read(i, got)) { V(base + grp, desc + fmt(": %s has an invalid used size", hname(i))); dead = true; return false; }
+			if (got != m[i]) { V(base + grp, desc + fmt(": %s reads %s, model %s (0 = null, 9 = not a stored pointer)", hname(i), vecs(got).c_str(), vecs(m[i]).c_str())); return false; }
+		}
+		if (asan_error()) { V(base + "memory-error", desc + ": reading a handle back touches freed memory"); dead = true; return false; }
+		size_t n = h.heap_groups(), live = ledger_live() - g_lbase;
+		if (live != n) { V(base + (live > n ? "leak" : "released-while-referenced"), desc + fmt(": %zu buffers allocated, %zu reachable from the handles", live, n)); if (live < n) dead = true; return false; }
+		return true;
+	}
+	std::string opname(int op)
+	{
+		const Inst &in = g_ptab[op];
+		static const char *ip[] = { "0", "n", "n+2", "-1" }, *sp[] = { "0", "n-1" }, *sw[] = { "0", "n-1", "n", "-1" };
+		static const char *as[] = { "p0=p1", "p1=p0", "p0=pointer_array()", "p0=d", "d=p0" };
+		switch (in.k) {
+		case PK_INSERT: return fmt("p0.insert(%s,%s)", ip[in.a], in.b ? fmt("&cell%d", in.b).c_str() : "null");
+		case PK_SET: return fmt("p0.set(%s,%s)", sp[in.a], in.b ? "&cell1" : "null");
+		case PK_COMPACT: return "p0.compact()";
+		case PK_SWAPEL: return fmt("p0.swap(%s,%s)", sw[in.a], sp[in.b]);
+		case PK_UNUSED: return "p0.unused()";
+		case PK_OFFSET: return fmt("p0.offset(&cell%d)", in.a);
+		case PK_ASSIGN: return as[in.a];
+		case PK_SWAP: return "swap(p0,p1)";
+		}
+		return "?";
+	}
+	bool apply(int op)
+	{
+		const Inst &in = g_ptab[op];
+		fault = 0; asan_error();
+		if (in.k == PK_SWAP) { if (h.p[0] == h.p[1]) return false; std::swap(h.p[0], h.p[1]); std::swap(m[0], m[1]); return true; }
+		std::string name = opname(op), hint = name.substr(0, name.find('('));
+		r.hint(hint.c_str());
+		bool frontier = r.cur.size() == nap + 2; ++nap;
+		if (frontier && g_expired) return false;
+		std::string pre = canon();
+		if (frontier && !screened(r, 'p', fmt("p/%d/", op) + pre, hint, name + " in state " + pre)) return false;
+		++r.executions;
+		mpt::buffer *b = h.buf(0);
+		long n = b ? (long) (b->_used / sizeof(int *)) : 0, cap = b ? (long) (b->_size / sizeof(int *)) : 0;
+		std::string st = tstate(b), base, desc;
+		auto mk = [&](const char *opn, const std::string &arg) { base = std::string(opn) + "|" + st + "|" + arg + "|"; desc = fmt("%s [n=%ld capacity=%ld] in state %s", name.c_str(), n, cap, pre.c_str()); r.note("%s", desc.c_str()); };
+		auto touched = [&]() { if (b && (b->get_flags() & mpt::BufferShared)) { r.count("nontrivial"); stat("target-shared-or-immutable"); } };
+		auto moved = [&]() { if (h.buf(0) != b) { r.count("nontrivial"); stat("reallocated"); } };
+		std::vector<int> &mv = m[0];
+		switch (in.k) {
+		case PK_INSERT: {
+			long I[4] = { 0, n, n + 2, -1 };
+			for (int j = 0; j < in.a; ++j) if (I[j] == I[in.a]) return false;
+			if (n >= 10) return false;
+			long pos = I[in.a], p2 = pos < 0 ? pos + n : pos;
+			mk("pointer_array::insert", p2 < 0 ? "before-start" : (p2 < n ? "inside" : (p2 == n ? "at-end" : "behind-gap")) + std::string(std::max(p2, n) + 1 > cap ? ",exceeds-capacity" : "")); touched();
+			bool ok = false;
+			fault = guarded([&] { mc::Lib l; ok = p(0)->insert(pos, in.b ? &g_cell[in.b] : 0); });
+			if (!fault && ok && p2 >= 0) { moved(); if ((size_t) p2 > mv.size()) mv.resize(p2, 0); mv.insert(mv.begin() + p2, in.b); }
+			return check(base, desc, 0, !ok, p2 < 0); }
+		case PK_SET: {
+			if (in.a == 1 && n < 2) return false;
+			long pos = in.a ? n - 1 : 0; bool must = pos >= n;
+			mk("pointer_array::set", must ? "outside" : "inside"); touched();
+			bool ok = false;
+			fault = guarded([&] { mc::Lib l; ok = p(0)->set(pos, in.b ? &g_cell[1] : 0); });
+			if (!fault && ok && !must) { moved(); mv[pos] = in.b ? 1 : 0; }
+			return check(base, desc, 0, !ok, must); }
+		case PK_COMPACT: {
+			mk("pointer_array::compact", std::count(mv.begin(), mv.end(), 0) ? "has-null" : "no-null"); touched();
+			fault = guarded([&] { mc::Lib l; p(0)->compact(); });
+			if (!fault) { moved(); mv.erase(std::remove(mv.begin(), mv.end(), 0), mv.end()); }
+			return check(base, desc, 0, false); }
+		case PK_SWAPEL: {
+			long A[4] = { 0, n - 1, n, -1 }, B[2] = { 0, n - 1 };
+			for (int j = 0; j < in.a; ++j) if (A[j] == A[in.a]) return false;
+			if (in.b == 1 && n < 2) return false;
+			long i1 = A[in.a], i2 = B[in.b];
+			bool must = i1 < 0 || i1 >= n || i2 < 0 || i2 >= n;
+			mk("pointer_array::swap", must ? "outside" : "inside"); touched();
+			bool ok = false;
+			fault = guarded([&] { mc::Lib l; ok = p(0)->swap(i1, i2); });
+			if (!fault && ok && !must) {
+				// swap is a const member working on the stored pointers: it is not one of the operations the property lists, so the exchange being
+				// visible through handles sharing the buffer is counted, not flagged
+				for (int k = 0; k < 3; ++k) if (h.p[k] == h.p[0]) { std::swap(m[k][i1], m[k][i2]); if (k) stat("swap-visible-through-shared-handle(not flagged)"); }
+			}
+			return check(base, desc, 0, !ok, must); }
+		case PK_UNUSED: {
+			mk("pointer_array::unused", "-");
+			long got = -1, want = std::count(mv.begin(), mv.end(), 0);
+			fault = guarded([&] { mc::Lib l; got = p(0)->unused(); });
+			if (!fault && got != want) { V(base + "wrong-result", desc + fmt(": returned %ld, expected %ld", got, want)); return false; }
+			return check(base, desc, -1, false); }
+		case PK_OFFSET: {
+			mk("pointer_array::offset", "-");
+			long got = -2, want = -1;
+			for (size_t k = 0; k < mv.size(); ++k) if (mv[k] == in.a) { want = k; break; }
+			fault = guarded([&] { mc::Lib l; got = p(0)->offset(&g_cell[in.a]); });
+			if (!fault && got != want) { V(base + "wrong-result", desc + fmt(": returned %ld, expected %ld", got, want)); return false; }
+			return check(base, desc, -1, false); }
+		case PK_ASSIGN: {
+			int dd, s;
+			switch (in.a) { case 0: dd = 0; s = 1; break; case 1: dd = 1; s = 0; break; case 2: dd = 0; s = -1; break; case 3: dd = 0; s = 2; break; default: dd = 2; s = 0; }
+			if (s >= 0 && h.p[dd] == h.p[s]) return false;
+			if (s < 0 && !m[dd].size()) return false;
+			st = tstate(h.buf(dd));
+			mk("assign", s < 0 ? "fresh" : "copy");
+			fault = guarded([&] { mc::Lib l;
+				switch (in.a) { case 0: *p(0) = *p(1); break; case 1: *p(1) = *p(0); break; case 2: *p(0) = PA(); break; case 3: *p(0) = *d(2); break; default: *d(2) = *d(0); } });
+			if (!fault) { if (s >= 0) m[dd] = m[s]; else m[dd].clear(); }
+			return check(base, desc, dd, false); }
+		}
+		return false;
+	}
+};
+
+// ---- map<int,int> x3
+enum MK { MK_SET, MK_APPEND, MK_GET, MK_VALUES, MK_ASSIGN, MK_SWAP };
+static std::vector<Inst> g_mtab;
+static void build_mtab()
+{
+	if (!g_mtab.empty()) return;
+	for (int k = 1; k <= 2; ++k) for (int v = 7; v <= 8; ++v) g_mtab.push_back(Inst{MK_SET, k, v, 0});
+	for (int k = 1; k <= 2; ++k) g_mtab.push_back(Inst{MK_APPEND, k, 9, 0});
+	for (int k = 1; k <= 3; ++k) g_mtab.push_back(Inst{MK_GET, k, 0, 0});
+	for (int k = 0; k <= 2; ++k) g_mtab.push_back(Inst{MK_VALUES, k, 0, 0});
+	for (int i = 0; i < 4; ++i) g_mtab.push_back(Inst{MK_ASSIGN, i, 0, 0});
+	g_mtab.push_back(Inst{MK_SWAP, 0, 0, 0});
+}
+struct MSys {
+	typedef mpt::map<int, int> MP; typedef MP::entry EN;
+	typedef std::vector<std::pair<int, int> > MV;
+	Run &r; Slots h; MV m[3]; bool dead; int fault; size_t nap;
+	MP *mp(int i) { return reinterpret_cast<MP *>(&h.p[i]); }
+	void V(const std::string &sig, const std::string &detail) { report(r, sig, detail); }
+	MSys(Run &run, uint64_t) : r(run), dead(false), fault(0), nap(0)
+	{
+		static_assert(sizeof(MP) == sizeof(void *), "map layout");
+		warm(); build_mtab(); if (!g_child && !r.replaying) zygote_start();
+		ledger_base(); asan_error();
+		{ mc::Lib l; for (int i = 0; i < 3; ++i) new (&h.p[i]) MP(); }
+	}
+	~MSys()
+	{
+		if (dead) { g_suspect = true; return; }
+		guarded([&] { for (int i = 0; i < 3; ++i) mp(i)->~MP(); });
+	}
+	int nops() { return (int) g_mtab.size(); }
+	bool read(int i, MV &out)
+	{
+		mpt::buffer *b = h.buf(i); out.clear();
+		if (!b || b->_used > b->_size || b->_used % sizeof(EN)) return false;
+		EN *e = (EN *) (b + 1);
+		for (size_t k = 0; k < b->_used / sizeof(EN); ++k) out.push_back(std::make_pair(e[k].key, e[k].value));
+		return true;
+	}
+	static std::string mvs(const MV &v) { std::string s = "{"; for (size_t i = 0; i < v.size(); ++i) s += fmt("%s%d:%d", i ? "," : "", v[i].first, v[i].second); return s + "}"; }
+	std::string canon()
+	{
+		int g[3]; mpt::buffer *bs[3]; int n = h.groups(g, bs);
+		std::string s;
+		for (int j = 0; j < n; ++j) {
+			s += fmt("g%d", j) + tcanon(bs[j], sizeof(EN));
+			for (int i = 0; i < 3; ++i) if (g[i] == j) { MV v; if (read(i, v)) s += mvs(v); break; }
+			s += " ";
+		}
+		for (int i = 0; i < 3; ++i) s += fmt("m%d=g%d ", i, g[i]);
+		return s;
+	}
+	bool check(const std::string &base, const std::string &desc, int w, bool refused)
+	{
+		if (fault) { V(base + signame(fault), desc + ": the call faulted"); dead = true; return false; }
+		if (asan_error()) { V(base + "memory-error", desc + ": access outside the buffer / freed memory (AddressSanitizer)"); dead = true; return false; }
+		stat(base.substr(0, base.find('|')) + (refused ? ":refused" : ":ok"));
+		for (int pass = 0; pass < 2; ++pass) for (int i = 0; i < 3; ++i) {
+			if ((pass == 0) != (i != w)) continue;
+			const char *grp = i != w ? "other-handle-changed" : (refused ? "refused-but-changed" : "wrong-content");
+			MV got;
+			if (!read(i, got)) { V(base + grp, desc + fmt(": map%d has an invalid used size", i)); dead = true; return false; }
+			if (got != m[i]) { V(base + grp, desc + fmt(": map%d reads %s, model %s", i, mvs(got).c_str(), mvs(m[i]).c_str())); return false; }
+		}
+		size_t n = h.heap_groups(), live = ledger_live() - g_lbase;
+		if (live != n) { V(base + (live > n ? "leak" : "released-while-referenced"), desc + fmt(": %zu buffers allocated, %zu reachable from the handles", live, n)); if (live < n) dead = true; return false; }
+		return true;
+	}
+	std::string opname(int op)
+	{
+		const Inst &in = g_mtab[op];
+		static const char *as[] = { "m0=m1", "m1=m0", "m0=map()", "m2=m0" };
+		switch (in.k) {
+		case MK_SET: return fmt("m0.set(%d,%d)", in.a, in.b);
+		case MK_APPEND: return fmt("m0.append(%d,%d)", in.a, in.b);
+		case MK_GET: return fmt("m0.get(%d)", in.a);
+		case MK_VALUES: return in.a ? fmt("m0.values(%d)", in.a) : std::string("m0.values()");
+		case MK_ASSIGN: return as[in.a];
+		case MK_SWAP: return "swap(m0,m1)";
+		}
+		return "?";
+	}
+	bool apply(int op)
+	{
+		const Inst &in = g_mtab[op];
+		fault = 0; asan_error();
+		if (in.k == MK_SWAP) { if (h.p[0] == h.p[1]) return false; std::swap(h.p[0], h.p[1]); std::swap(m[0], m[1]); return true; }
+		std::string name = opname(op), hint = name.substr(0, name.find('('));
+		r.hint(hint.c_str());
+		bool frontier = r.cur.size() == nap + 2; ++nap;
+		if (frontier && g_expired) return false;
+		std::string pre = canon();
+		if (frontier && !screened(r, 'm', fmt("m/%d/", op) + pre, hint, name + " in state " + pre)) return false;
+		++r.executions;
+		mpt::buffer *b = h.buf(0);
+		std::string st = tstate(b), base, desc;
+		MV &mv = m[0];
+		auto find = [&](int k) { for (size_t i = 0; i < mv.size(); ++i) if (mv[i].first == k) return (long) i; return -1L; };
+		auto mk = [&](const char *opn, const std::string &arg) { base = std::string(opn) + "|" + st + "|" + arg + "|"; desc = name + " in state " + pre; r.note("%s", desc.c_str()); };
+		auto touched = [&]() { if (b && heap_buf(b) && (b->get_flags() & mpt::BufferShared)) { r.count("nontrivial"); stat("target-shared-or-immutable"); } };
+		switch (in.k) {
+		case MK_SET: case MK_APPEND: {
+			if (mv.size() >= 6) return false;
+			long at = in.k == MK_SET ? find(in.a) : -1;
+			mk(in.k == MK_SET ? "map::set" : "map::append", at >= 0 ? "existing-key" : "new-key"); touched();
+			bool ok = false;
+			fault = guarded([&] { mc::Lib l; ok = in.k == MK_SET ? mp(0)->set(in.a, in.b) : mp(0)->append(in.a, in.b); });
+			if (!fault && ok) { if (h.buf(0) != b && heap_buf(b)) { r.count("nontrivial"); stat("reallocated"); } if (at >= 0) mv[at].second = in.b; else mv.push_back(std::make_pair(in.a, in.b)); }
+			return check(base, desc, 0, !ok); }
+		case MK_GET: {
+			long at = find(in.a);
+			mk("map::get", at >= 0 ? "existing-key" : "new-key");
+			int *got = 0;
+			fault = guarded([&] { mc::Lib l; got = mp(0)->get(in.a); });
+			if (!fault) {
+				EN *e = (EN *) (h.buf(0) + 1);
+				if ((at >= 0) != (got != 0)) { V(base + "wrong-result", desc + (got ? ": returned a value for an absent key" : ": returned nothing for a stored key")); return false; }
+				if (got && got != &e[at].value) { V(base + "wrong-result", desc + fmt(": returned address is not the value of the first entry with this key (entry %ld of %zu)", at, mv.size())); return false; }
+			}
+			return check(base, desc, -1, false); }
+		case MK_VALUES: {
+			mk("map::values", in.a ? "key" : "all");
+			std::vector<int> want, got;
+			for (auto &kv : mv) if (!in.a || kv.first == in.a) want.push_back(kv.second);
+			fault = guarded([&] { mpt::typed_array<int> v; { mc::Lib l; v = in.a ? mp(0)->values(in.a) : mp(0)->values(); } got.assign(v.begin(), v.end()); });
+			if (!fault && got != want) { V(base + "wrong-result", desc + ": returned " + vecs(got) + ", expected " + vecs(want)); return false; }
+			return check(base, desc, -1, false); }
+		case MK_ASSIGN: {
+			int d, s;
+			switch (in.a) { case 0: d = 0; s = 1; break; case 1: d = 1; s = 0; break; case 2: d = 0; s = -1; break; default: d = 2; s = 0; }
+			if (s >= 0 && h.p[d] == h.p[s]) return false;
+			if (s < 0 && !heap_buf(h.buf(d))) return false;
+			st = tstate(h.buf(d));
+			mk("assign", s < 0 ? "fresh" : "copy");
+			fault = guarded([&] { mc::Lib l; if (s >= 0) *mp(d) = *mp(s); else *mp(d) = MP(); });
+			if (!fault) { if (s >= 0) m[d] = m[s]; else m[d].clear(); }
+			return check(base, desc, d, false); }
+		}
+		return false;
+	}
+};
+
 
 // ------------------------------------------------------------------ one case in a throw-away process (see screened())
 template <class Sys> static std::string run_case_t(const Vec &v)
@@ -858,6 +1421,9 @@ static std::string run_case(char fam, const Vec &v)
 	switch (fam) {
 	case 'c': return run_case_t<RawSys<0> >(v);
 	case 'x': return run_case_t<RawSys<1> >(v);
+	case 't': return run_case_t<TSys>(v);
+	case 'p': return run_case_t<PSys>(v);
+	case 'm': return run_case_t<MSys>(v);
 	}
 	return "OK";
 }
@@ -868,6 +1434,9 @@ static int depth_of(Tier t, char fam)
 	switch (fam) {
 	case 'c': return t == Quick ? 3 : 4;
 	case 'x': return t == Quick ? 3 : 4;
+	case 't': return t == Quick ? 4 : 5;
+	case 'p': return t == Quick ? 4 : 5;
+	case 'm': return t == Quick ? 5 : 6;
 	}
 	return 3;
 }
@@ -880,6 +1449,7 @@ void mc_jobs(Tier t, std::vector<std::string> &jobs)
 			jobs.push_back(fmt("%s:%d", fam, 1 + fl + 4 * tr + 12 * fill));
 		}
 	}
+	jobs.push_back("t:0"); jobs.push_back("p:0"); jobs.push_back("m:0");
 }
 static void required(Run &r, char fam)
 {
@@ -893,6 +1463,9 @@ void mc_explore(Run &r, const std::string &job)
 	std::vector<uint64_t> inits(1, init);
 	if (fam == 'c') bfs_histories<RawSys<0> >(r, inits, depth_of(r.tier, fam));
 	else if (fam == 'x') bfs_histories<RawSys<1> >(r, inits, depth_of(r.tier, fam));
+	else if (fam == 't') bfs_histories<TSys>(r, inits, depth_of(r.tier, fam));
+	else if (fam == 'p') bfs_histories<PSys>(r, inits, depth_of(r.tier, fam));
+	else if (fam == 'm') bfs_histories<MSys>(r, inits, depth_of(r.tier, fam));
 	for (auto &kv : st.c) r.count(std::string(1, fam) + ":" + kv.first, kv.second);
 	g_stats = 0;
 }
@@ -901,4 +1474,7 @@ void mc_replay(Run &r, const std::string &job, const Vec &v)
 	char fam = job[0];
 	if (fam == 'c') bfs_replay<RawSys<0> >(r, v);
 	else if (fam == 'x') bfs_replay<RawSys<1> >(r, v);
+	else if (fam == 't') bfs_replay<TSys>(r, v);
+	else if (fam == 'p') bfs_replay<PSys>(r, v);
+	else if (fam == 'm') bfs_replay<MSys>(r, v);
 }
